@@ -929,9 +929,10 @@ static void c_load_basis_norms (void)
 	int k = nslot ('p'), rc, n, i; char *cs = nt (), *rs = nt (); mpq_t *nm;
 	n = ni (); nm = qalloc (n);
 	for (i = 0; i < n; i++) nq (nm[i]);
-	if (P[k] && ((int) strlen (cs) < mpq_QSget_colcount (P[k]) || (int) strlen (rs) < mpq_QSget_rowcount (P[k]) || n < mpq_QSget_rowcount (P[k])))
+	/* n == 0 stands for a NULL norm array (an invalid argument the library has to refuse) */
+	if (P[k] && ((int) strlen (cs) < mpq_QSget_colcount (P[k]) || (int) strlen (rs) < mpq_QSget_rowcount (P[k]) || (n != 0 && n < mpq_QSget_rowcount (P[k]))))
 		die ("load_basis_norms: arrays shorter than problem");
-	BEGIN ("load_basis_norms"); rc = mpq_QSload_basis_and_row_norms_array (P[k], cs, rs, nm); ev_int ("rc", rc); END ();
+	BEGIN ("load_basis_norms"); rc = mpq_QSload_basis_and_row_norms_array (P[k], cs, rs, n ? nm : 0); ev_int ("rc", rc); END ();
 	qfree (nm, n);
 }
 /* roundtrip_basis_norms pK : the save / restore pattern of a branching host: fetch basis + dual steepest-edge row norms, load them back */
